@@ -19,7 +19,10 @@ Theorem c15_total : forall (O : oracles) (b : string),
 Proof. exact decoders_total. Qed.
 Print Assumptions c15_total.
 
-(* Marshal of any playlist value succeeds *)
+(* Marshal of any playlist value succeeds. Definitional in the model: [marshal]
+   (Model/Playlist.v) returns Ok on both branches, the Go function having no error or panic site
+   the model represents. The claim therefore rests on the tie: the harness re-marshals every
+   decoded value with the real Marshal (observables remarshal:panic / remarshal:error). *)
 Theorem c15_remarshal : forall (O : oracles) (p : playlist), exists s, marshal O p = Ok s.
 Proof. exact marshal_total. Qed.
 Print Assumptions c15_remarshal.
